@@ -421,6 +421,37 @@ func checkRangeStringByteIndex(c *Ctx, rule string, shortPkgs []string) int {
 
 func runC33(c *Ctx) {
 	p := c.P
+	// Branches are shared by all worktrees of a repository. Managing a linked worktree (add, remove, open, a rollback of
+	// a failed add) creates and removes that worktree's own metadata; it never deletes a reference from the shared
+	// storer — the branch may be another worktree's HEAD (git worktree remove keeps the branch, too).
+	{
+		const r0 = "worktree-management-keeps-shared-refs"
+		const wtShort = "x/plumbing/worktree"
+		if wpk := p.Pkg(wtShort); wpk == nil {
+			c.Unresolved(r0, "package "+wtShort, 0, "not loaded")
+		} else {
+			winfo := wpk.TypesInfo
+			nf, bad := 0, 0
+			for _, fi := range p.FuncsIn(wtShort) {
+				if fi.Decl.Body == nil || p.isTestFile(fi.Decl.Pos()) {
+					continue
+				}
+				nf++
+				walkCalls(fi.Decl.Body, true, func(call *ast.CallExpr) {
+					fn := Callee(winfo, call)
+					if fn != nil && fn.Name() == "RemoveReference" {
+						bad++
+						c.Analysed(fi)
+						c.Violate(r0, fi.Name()+"->RemoveReference", call.Pos(), "linked-worktree management deletes a reference from the shared storer: a branch is shared by all worktrees, another worktree whose HEAD points at it is left with a HEAD that resolves to nothing")
+					}
+				})
+			}
+			if bad == 0 {
+				c.Hold(r0, wtShort, 0, "no function of the package ("+itoa(nf)+" examined) removes a reference from the shared storer")
+			}
+		}
+		c.Floor(r0, 1)
+	}
 	const r1 = "commondir-routing"
 	mf := c.MustFunc(r1, dotgitShort+".(*RepositoryFilesystem).mapToRepositoryFsByPath")
 	rft := p.lookupType(dotgitShort, "RepositoryFilesystem")
